@@ -553,6 +553,7 @@ func clip(b []byte) string {
 func (p Prop) oneSchedule(r *core.Run, doc *document, base decoded, sch schedule, f fault, inside []uint8, cont []bool, interesting []int, limit int) *core.Violation {
 	rd, cs := makeReader(r.T, doc.data, sch, f, interesting, r.Tracing)
 	got := decodeAll(rd, limit)
+	r.Count("executions")
 	if r.Tracing {
 		r.Logf("schedule style=%d eof=%d fault=%s: %d reads, max room %d", sch.style, sch.eofStyle, f, rd.Calls, rd.MaxRoom)
 		for i, e := range rd.Log {
